@@ -275,7 +275,7 @@ def run(rep):
         i, call, iv, mv = dis[0]
         rep.fail('W:%s - model and implementation disagree (%d cases), e.g. %r: impl %r, model %r' % (call[0], len(dis), call[1], iv, mv),
                  {'obligation': 'W:' + call[0], 'call': call, 'impl': iv, 'model': mv}, found_input=False)
-    if dis_t and not found:
+    if dis_t and not rep.n_with_input:
         i, call, iv, mv = dis_t[0]
         rep.fail('W:%s - flag-line model and implementation disagree (%d cases), e.g. %r: impl %r, model %r' % (call[0], len(dis_t), call[1], iv, mv),
                  {'obligation': 'W:' + call[0], 'call': call, 'impl': iv, 'model': mv}, found_input=False)
